@@ -58,13 +58,29 @@ def _allow(sh, key, n=6):
 
 def _rand_coords(r, ctype, L, onaxis=False):
     """Native coordinates of a random point of size ~L in a system of type ctype."""
+    # special values on purpose: exact zeros and quadrant angles are where branch tests
+    # (s > c, x != 0, abs(y) + abs(x) > tol ...) change sides; none of them is a singular
+    # location (only the polar axis is)
+    special = r.random() < 0.25
+    quad = [-180.0, -90.0, 0.0, 90.0, 180.0, 270.0, 360.0]
     if ctype == 1:
-        return [float(x) for x in r.standard_normal(3) * L]
+        x = [float(v) for v in r.standard_normal(3) * L]
+        if special:
+            x[int(r.integers(3))] = 0.0
+            if r.random() < 0.3:
+                x[int(r.integers(3))] = 0.0
+        return x
     if ctype == 2:
         R = 0.0 if onaxis else float(r.uniform(0.05, 2.0) * L)
-        return [R, float(r.uniform(-200, 380)), float(r.standard_normal() * L)]
+        az = quad[int(r.integers(len(quad)))] if special else float(r.uniform(-200, 380))
+        z = 0.0 if (special and r.random() < 0.3) else float(r.standard_normal() * L)
+        return [R, az, z]
     R = float(r.uniform(0.05, 2.0) * L)
     th = float(r.uniform(0.5, 179.5))
+    if special and r.random() < 0.4:
+        th = 90.0
+    if special and not onaxis:
+        return [R, th, quad[int(r.integers(len(quad)))]]
     if onaxis:
         u = r.random()
         if u < 0.3:
@@ -212,6 +228,13 @@ def _geo_case(sh, n2p, pd, np, cs, i):
     nonq = [g for g in grids if g["set"] != "q"]
     refgrid = nonq[int(r.integers(0, len(nonq)))]
     refxyz = [float(x) for x in r.standard_normal(3) * L]
+    u = r.random()
+    if u < 0.3:            # reference points with exactly-zero coordinates
+        refxyz[int(r.integers(3))] = 0.0
+        if u < 0.12:
+            refxyz[int(r.integers(3))] = 0.0
+        if u < 0.03:
+            refxyz = [0.0, 0.0, 0.0]
     base = _oracle_eval(cs, cards, grids, refxyz)
     perts = []
     for k in range(3):
